@@ -2,8 +2,8 @@
 # Confirm seeded changes independently: for each /tmp/seed-<P>/mutants/<n>:
 #  (1) demo passes on the current /repo HEAD, (2) with the patch the full suite shows only the 2 baseline
 #  failures + the demo failing. Keeps confirmed ones under /verif/seeded/<P>-<n>/. Scratch worktree removed afterwards.
-export CARGO_NET_OFFLINE=true CARGO_TARGET_DIR=/tmp/confirm-target
-W=/tmp/confirm-wt
+T=${CONFIRM_TAG:-}; export CARGO_NET_OFFLINE=true CARGO_TARGET_DIR=/tmp/confirm-target$T
+W=/tmp/confirm-wt$T
 for d in "$@"; do
   P=$(basename $(dirname $(dirname $d))); P=${P#seed*-}; n=$(basename $d); n=$((n+${IDOFF:-0})); id="$P-$n"
   out=/verif/seeded/$id; [ -f $out/meta.json ] && { echo "skip $id"; continue; }
